@@ -245,6 +245,16 @@ impl<'a> Trainer<'a> {
         dict_word_max_len: u8,
         tag_dictionary: &'a [Sentence<'a, '_>],
     ) -> Result<Self> {
+        // The predictor rejects models containing longer words.
+        if dict_words
+            .iter()
+            .any(|w| i16::try_from(w.chars().count()).is_err())
+        {
+            return Err(VaporettoError::invalid_argument(
+                "dict_words",
+                "words must be shorter than or equal to 32767 characters",
+            ));
+        }
         let dict_pma = if dict_words.is_empty() {
             None
         } else {
